@@ -1,5 +1,6 @@
 import Driver.Store
 import NixModel.Lemmas.C04Bfs
+import NixModel.Store.C04Ext
 open Lean Nix.Store
 
 namespace Driver.C04
@@ -18,7 +19,8 @@ def fuelOk (g : Graph) (c : Cont) (key : Key) : Bool :=
     | _ => true
 
 /-- C04 is decided on the structural (HDF5 graph) model: the protocol of `Driver.Store`, plus
-`["fuel_ok", owner, cname, key]` -/
+`["fuel_ok", owner, cname, key]`, `["create_df", block, name]` (`Block.create_data_frame(name, "t", …)`) and
+`["dim_link", array, target]` (a new range dimension of `array` linked to `target`) -/
 def step (g : Graph) (j : Json) : Graph × Json :=
   match (Driver.jArr j).toList with
   | [.str "fuel_ok", pj, .str cname, kj] =>
@@ -29,6 +31,14 @@ def step (g : Graph) (j : Json) : Graph × Json :=
       | some c, some key => (g, Driver.ok (Json.bool (fuelOk g c key)))
       | none, _ => (g, Driver.bad "container")
       | _, none => (g, Driver.bad "key")
+  | [.str "create_df", pj, .str name] =>
+    match Driver.Store.parsePath pj with
+    | some p => Driver.Store.applyG g (createFrame g p name "t")
+    | none => (g, Driver.bad "path")
+  | [.str "dim_link", aj, tj] =>
+    match Driver.Store.parsePath aj, Driver.Store.parsePath tj with
+    | some a, some t => Driver.Store.applyG g (dimLink g a t)
+    | _, _ => (g, Driver.bad "path")
   | _ => Driver.Store.step g j
 
 def main : IO Unit := Driver.loop ({} : Graph) step
